@@ -76,7 +76,7 @@ def gen_case(rng):
         kills.append({"call": rng.randrange(ncalls), "when": rng.choice(["during", "during", "during", "before", "after"]),
                       "kind": rng.choice(KINDS), "nth": rng.choice([1, 1, 2, 2, 3, 4, 5, 7, 9]), "delay": rng.choice([0.0, 0.001, 0.02, 0.2]),
                       # how the victim dies decides its exit code only: SIGKILL, SIGTERM, SIGSEGV, real-time signals, os._exit(n)
-                      "code": rng.choice([-9, -9, -9, -15, -11, -37, -62, 1, 3, 255])})
+                      "code": rng.choice([-9, -9, -9, -15, -11, -37, -62, 1, 3, 255, 0])})
     if rng.random() < 0.3:
         # the calls ask for different numbers of workers: the reusable executor is resized (up: new workers are spawned,
         # down: workers are told to exit) at the start of a call -- a worker may die right then
@@ -290,7 +290,7 @@ def run_case(case):
                 armed.remove(k)
                 label = sp.where_is(victim)
                 pending = sum(1 for c in out["calls"] if c.get("running"))
-                out["kills"].append({"pid": victim.pid, "where": label, "t": round(s_.now, 4), "stall": round(s_.stall_time, 4), "during_call": out.get("cur"),
+                out["kills"].append({"pid": victim.pid, "where": label, "t": round(s_.now, 4), "stall": round(s_.stall_time, 4), "during_call": out.get("cur"), "code": k.get("code", -9),
                                      "kind": k["kind"]})
                 sp.kill_proc(victim, k.get("code", -9), label)
     s.hooks.append(hook)
@@ -387,10 +387,12 @@ def run_case(case):
         st = getattr(s, "failed_stacks", [])
         mgr = [x for x in st if x[0].startswith("ExecutorManagerThread")]
         mgr_in = mgr[0][2][-1][2] if mgr and mgr[0][2] else None
+        if mgr and any(fr[2] == "join_executor_internals" for fr in mgr[0][2]) and mgr_in in ("<genexpr>", "is_alive", "join_executor_internals", "block", "sleep"):
+            mgr_in = "join"         # (the join is a polling loop: wherever the sample caught it)
         inside = any(k["where"].startswith("sending_result:inside_message") for k in kills)
         verdict = V("hang", "%s after kills %s; calls so far %s; manager thread in %s; threads %s" % (
             s.failed, kills, [(c.get("outcome"), c.get("t1")) for c in calls], mgr_in, str([x for x in st if x[1] != "dead"])[:2500]),
-            manager_in=mgr_in, victim_died_inside_result_message=inside,
+            manager_in=mgr_in, victim_died_inside_result_message=inside, victim_exit_code_0=any(k.get("code") == 0 for k in kills),
             kill_point=kill_point if not inside else "sending_result")
     elif any(n == "main" for n, _, _ in s.thread_errors):
         e = [x for x in s.thread_errors if x[0] == "main"][0]
